@@ -342,6 +342,26 @@ func runSqCase(c *sqCase, t *treeSpec) (sig, msg, outcome string) {
 	if len(got) != len(t.Files) {
 		return "readback|" + tag + "|extra-file", fmt.Sprintf("%d files read back, %d in the source", len(got), len(t.Files)), "mismatch"
 	}
+	// the same files read through several handles that are open at once and take turns
+	if len(t.Files) <= 64 {
+		var ires string
+		if pm := guard(func() {
+			rfs, e := squashfs.Read(be(d, true), size, c.Start, c.Blocksize)
+			if e != nil {
+				ires = e.Error()
+				return
+			}
+			if c.Cache == 0 {
+				rfs.SetCacheSize(0)
+			}
+			ires = interleavedRead(rfs, t.Files, 1000)
+		}); pm != "" {
+			return "readback|" + tag + "|interleaved|" + pm, "reading through several open handles panicked: " + pm, "panic"
+		}
+		if ires != "" {
+			return "readback|" + tag + "|interleaved-handles", ires, "mismatch"
+		}
+	}
 	for l, tg := range t.Links {
 		g, ok := gotLinks[l]
 		if !ok {
